@@ -9,12 +9,15 @@
 //   T seed feat nbody nrep xflags integrator
 //       mjd_transitionFD forward and centred (A, B, C, D), own centred differences of mj_step,
 //       state comparison (mjcmp.h + mj_getState) before/after mjd_transitionFD and mjd_inverseFD
+//   CD fp fm h n x.. xp.. xm..    the static clampedDiff of engine_derivative_fd.c (fp / fm: x_plus / x_minus given or NULL)
+//   E limited centered ctrl eps lo hi   one hinge, motor (gear 2), actuatorfrc sensor: the D and B entries of mjd_transitionFD
+// xflags: 64 force-limited actuators with a velocity term that saturate (velocity servo / affine gain, tiny forcerange)
 // xflags: 1 fluid (density, viscosity, one ellipsoid-fluid geom)   2 damper + cylinder + intvelocity actuators
 //         4 muscle actuator   8 DC motor actuator   16 PID actuator   32 smooth model (no contacts/limits/friction/equalities)
 #include "mjgen.h"
 #include "mjcmp.h"
 #include "engine/engine_derivative.h"
-#include "engine/engine_derivative_fd.h"
+#include "engine/engine_derivative_fd.c"   // static clampedDiff: every symbol of that TU is defined here
 #include "engine/engine_core_util.h"   // mj_actuatorDamping
 #include "engine/engine_support.h"     // mj_actuatorDisabled
 #include "engine/engine_util_misc.h"   // mju_geomSemiAxes
@@ -78,6 +81,25 @@ static mjModel* build(uint64_t seed, unsigned feat, int nbody, unsigned xf, int 
       if (e && e[0]) fprintf(stderr, "c25: pid: %s\n", e);
       extra++;
     }
+  }
+  if (nsj > 0 && (xf & 64)) {
+    mjsActuator* a = mjs_addActuator(s, NULL); mjs_setName(a->element, "xsatv"); a->trntype = mjTRN_JOINT;
+    mjs_setString(a->target, mj_id2name(m0, mjOBJ_JOINT, sj[mjg_int(r, nsj)])); mjs_setToVelocity(a, 2.0);
+    a->forcelimited = mjLIMITED_TRUE; a->forcerange[0] = -0.02; a->forcerange[1] = 0.03;
+    a = mjs_addActuator(s, NULL); mjs_setName(a->element, "xsatg"); a->trntype = mjTRN_JOINT;
+    mjs_setString(a->target, mj_id2name(m0, mjOBJ_JOINT, sj[mjg_int(r, nsj)]));
+    a->gaintype = mjGAIN_AFFINE; a->gainprm[0] = 0.5; a->gainprm[2] = 0.8; a->biastype = mjBIAS_NONE;
+    a->forcelimited = mjLIMITED_TRUE; a->forcerange[0] = -0.05; a->forcerange[1] = 0.04;
+    extra += 2;
+  }
+  // sensors that depend on the controls: one actuatorfrc per actuator, jointactuatorfrc on a few joints
+  {
+    int nact0 = m0->nu + extra, k = 0;
+    static const char* xn[] = {"xdamper", "xcyl", "xintvel", "xmuscle", "xdc", "xpid", "xsatv", "xsatg"};
+    for (int a = 0; a < m0->nu; a++) { mjsSensor* sn = mjs_addSensor(s); sn->type = mjSENS_ACTUATORFRC; sn->objtype = mjOBJ_ACTUATOR; mjs_setString(sn->objname, mj_id2name(m0, mjOBJ_ACTUATOR, a)); }
+    for (k = 0; k < 8; k++) if (mjs_findElement(s, mjOBJ_ACTUATOR, xn[k])) { mjsSensor* sn = mjs_addSensor(s); sn->type = mjSENS_ACTUATORFRC; sn->objtype = mjOBJ_ACTUATOR; mjs_setString(sn->objname, xn[k]); }
+    for (k = 0; k < nsj && k < 3; k++) { mjsSensor* sn = mjs_addSensor(s); sn->type = mjSENS_JOINTACTFRC; sn->objtype = mjOBJ_JOINT; mjs_setString(sn->objname, mj_id2name(m0, mjOBJ_JOINT, sj[k])); }
+    (void)nact0;
   }
   mj_deleteModel(m0);
   mjModel* m = mj_compile(s, NULL);
@@ -283,6 +305,13 @@ static void run_transition(uint64_t seed, unsigned feat, int nbody, int nrep, un
          (int)(mjSTATE_FULLPHYSICS | mjSTATE_CTRL), (int)(mjSTATE_FULLPHYSICS | mjSTATE_CTRL | mjSTATE_WARMSTART));
   for (int rep = 0; rep < nrep; rep++) {
     random_state(m, d, r, rep);
+    if (rep >= 2) {   // controls exactly at / within eps of / outside the limits of their range (separate stream: earlier repetitions unchanged)
+      mjg_rng R2 = { seed * 977 + 5 + rep };
+      for (int i = 0; i < m->nu; i++) if (m->actuator_ctrllimited[i]) {
+        mjtNum lo = m->actuator_ctrlrange[2 * i], hi = m->actuator_ctrlrange[2 * i + 1]; int k = mjg_int(&R2, 6);
+        d->ctrl[i] = k == 0 ? lo : k == 1 ? hi : k == 2 ? lo + 0.4e-6 : k == 3 ? hi - 0.4e-6 : k == 4 ? hi + 0.2 : lo + (hi - lo) * mjg_u(&R2);
+      }
+    }
     int err = 0;
     if (MJG_TRY) { int nst0 = rep % 2 ? 3 : 0; for (int k = 0; k < nst0; k++) mj_step(m, d); mj_forward(m, d); MJG_END; } else err = 1;
     if (err || !finite_state(m, d)) { printf("REP %d 1\nENDREP\n", rep); continue; }
@@ -304,6 +333,7 @@ static void run_transition(uint64_t seed, unsigned feat, int nbody, int nrep, un
     printf("B0 %d", nu); pd(B0, ndx * nu); printf("\n");
     printf("B1 %d", nu); pd(B1, ndx * nu); printf("\n");
     if (ns) { printf("C0 %d", ns); pd(C0, ns * ndx); printf("\n"); printf("C1 %d", ns); pd(C1, ns * ndx); printf("\n"); }
+    if (ns && nu) { printf("D0 %d", ns); pd(D0, ns * nu); printf("\n"); printf("D1 %d", ns); pd(D1, ns * nu); printf("\n"); }
     // ---- own centred differences of mj_step (A: state columns, B: control columns)
     for (int j = 0; j < ndx; j++) {
       for (int sgn = 0; sgn < 2; sgn++) {
@@ -316,6 +346,30 @@ static void run_transition(uint64_t seed, unsigned feat, int nbody, int nrep, un
       for (int i = 0; i < ndx; i++) AO[i * ndx + j] = col[i];
     }
     printf("AO %d", ndx); pd(AO, ndx * ndx); printf("\n");
+    if (ns) {
+      mjtNum* CO = malloc(sizeof(mjtNum) * (ns * ndx + 1)); mjtNum* sp = malloc(sizeof(mjtNum) * (ns + 1)); mjtNum* sm = malloc(sizeof(mjtNum) * (ns + 1));
+      for (int j = 0; j < ndx; j++) {
+        for (int sgn = 0; sgn < 2; sgn++) {
+          mj_copyData(w, m, d); mjtNum h = sgn ? -eps : eps;
+          if (j < nv) { mju_zero(dv, nv); dv[j] = 1; mj_integratePos(m, w->qpos, dv, h); }
+          else if (j < 2 * nv) w->qvel[j - nv] += h; else w->act[j - 2 * nv] += h;
+          mj_step(m, w); mju_copy(sgn ? sm : sp, w->sensordata, ns);
+        }
+        for (int i = 0; i < ns; i++) CO[i * ndx + j] = (sp[i] - sm[i]) / (2 * eps);
+      }
+      printf("CO %d", ns); pd(CO, ns * ndx); printf("\n");
+      if (nu) {
+        mjtNum* DO = malloc(sizeof(mjtNum) * (ns * nu + 1));
+        for (int j = 0; j < nu; j++) {
+          mjtNum c = d->ctrl[j]; const mjtNum* rg = m->actuator_ctrlrange + 2 * j;
+          if (m->actuator_ctrllimited[j] && !(c - eps >= rg[0] && c + eps <= rg[1])) { for (int i = 0; i < ns; i++) DO[i * nu + j] = NAN; continue; }
+          for (int sgn = 0; sgn < 2; sgn++) { mj_copyData(w, m, d); w->ctrl[j] += sgn ? -eps : eps; mj_step(m, w); mju_copy(sgn ? sm : sp, w->sensordata, ns); }
+          for (int i = 0; i < ns; i++) DO[i * nu + j] = (sp[i] - sm[i]) / (2 * eps);
+        }
+        printf("DO %d", ns); pd(DO, ns * nu); printf("\n"); free(DO);
+      }
+      free(CO); free(sp); free(sm);
+    }
     int bok = 1;
     for (int j = 0; j < nu; j++) {
       // centred only when both nudges stay inside the control range (as documented for mjd_transitionFD)
@@ -360,10 +414,48 @@ static void run_transition(uint64_t seed, unsigned feat, int nbody, int nrep, un
   printf("END\n");
 }
 
+// ---------------------------------------------------------------- CD: the static clampedDiff
+static void run_clamped(const char* args) {
+  int fp, fm, n, off = 0, k; char hs[64]; double h, v[3][16];
+  if (sscanf(args, "%d %d %63s %d%n", &fp, &fm, hs, &n, &k) != 4 || n > 16) { printf("FAIL parse\nEND\n"); return; }
+  h = strtod(hs, NULL); off = k;
+  for (int a = 0; a < 3; a++) for (int i = 0; i < n; i++) { char xs[64]; int nn; if (sscanf(args + off, "%63s%n", xs, &nn) != 1) { printf("FAIL parse\nEND\n"); return; } v[a][i] = strtod(xs, NULL); off += nn; }
+  mjtNum dx[18], x[16], xp[16], xm[16];
+  for (int i = 0; i < 18; i++) dx[i] = -7.7e77;
+  for (int i = 0; i < n; i++) { x[i] = v[0][i]; xp[i] = v[1][i]; xm[i] = v[2][i]; }
+  clampedDiff(dx + 1, x, fp ? xp : NULL, fm ? xm : NULL, h, n);
+  printf("CD %d", (dx[0] != -7.7e77) + (dx[n + 1] != -7.7e77)); pd(dx + 1, n); printf("\nEND\n");
+}
+
+// ---------------------------------------------------------------- E: control at / near / outside its range
+static void run_edge(const char* args) {
+  int limited, centered; char cs[4][64]; double c, eps, lo, hi;
+  if (sscanf(args, "%d %d %63s %63s %63s %63s", &limited, &centered, cs[0], cs[1], cs[2], cs[3]) != 6) { printf("FAIL parse\nEND\n"); return; }
+  c = strtod(cs[0], NULL); eps = strtod(cs[1], NULL); lo = strtod(cs[2], NULL); hi = strtod(cs[3], NULL);
+  mjSpec* s = mj_makeSpec();
+  mjsBody* b = mjs_addBody(mjs_findBody(s, "world"), NULL);
+  mjsJoint* j = mjs_addJoint(b, NULL); j->type = mjJNT_HINGE; mjs_setName(j->element, "j"); j->damping[0] = 0.1;
+  mjsGeom* g = mjs_addGeom(b, NULL); g->type = mjGEOM_SPHERE; g->size[0] = 0.1; g->pos[0] = 0.3;
+  mjsActuator* a = mjs_addActuator(s, NULL); mjs_setName(a->element, "a"); a->trntype = mjTRN_JOINT; mjs_setString(a->target, "j"); mjs_setToMotor(a); a->gear[0] = 2;
+  a->ctrllimited = limited ? mjLIMITED_TRUE : mjLIMITED_FALSE; a->ctrlrange[0] = lo; a->ctrlrange[1] = hi;
+  mjsSensor* sn = mjs_addSensor(s); sn->type = mjSENS_ACTUATORFRC; sn->objtype = mjOBJ_ACTUATOR; mjs_setString(sn->objname, "a");
+  mjModel* m = mj_compile(s, NULL);
+  if (!m) { printf("FAIL compile %s\nEND\n", mjs_getError(s)); mj_deleteSpec(s); return; }
+  mj_deleteSpec(s);
+  mjData* d = mj_makeData(m); d->ctrl[0] = c; d->qvel[0] = 0.1; mj_forward(m, d);
+  mjtNum B[2], D[1]; int err = 0;
+  if (MJG_TRY) { mjd_transitionFD(m, d, eps, centered, NULL, B, NULL, D); MJG_END; } else err = 1;
+  // the sensor before and after the nudges, as the model of the check needs it: sensor(u) = clip(u) (gain 1)
+  printf("E %d %a %a %a %a\nEND\n", err, (double)D[0], (double)B[0], (double)B[1], (double)d->ctrl[0]);
+  mj_deleteData(d); mj_deleteModel(m);
+}
+
 int main(void) {
   mjg_install_handlers();
-  char line[1024];
+  char line[4096];
   while (fgets(line, sizeof(line), stdin)) {
+    if (line[0] == 'C' && line[1] == 'D') { run_clamped(line + 2); fflush(stdout); continue; }
+    if (line[0] == 'E') { run_edge(line + 1); fflush(stdout); continue; }
     unsigned long long seed; unsigned feat, xf; int nbody, nrep, integ;
     if ((line[0] == 'S' || line[0] == 'T') && sscanf(line + 1, "%llu %u %d %d %u %d", &seed, &feat, &nbody, &nrep, &xf, &integ) == 6) {
       if (line[0] == 'S') run_smooth(seed, feat, nbody, nrep, xf, integ); else run_transition(seed, feat, nbody, nrep, xf, integ);
